@@ -100,6 +100,9 @@ type Exec struct {
 	curIn    ssa.Instruction
 	seenName map[string]int
 	Skipped  int
+	ghostFuncs map[string]func(en *evalEnv, args []ev) ev
+	retHooks []func(e *Exec, fr *Frame, st *State, res []Value)
+	usedLoopKeys map[string]bool
 }
 
 // Hook lets a family observe calls (ghost state).
@@ -110,7 +113,7 @@ type Hook interface {
 }
 
 func NewExec(p *Prog, opt *Options) *Exec {
-	e := &Exec{P: p, Opt: opt, strs: map[string]*Term{}, floats: map[string]*Term{}, declared: map[string]bool{}, anchorN: map[string]int{}, seenName: map[string]int{}}
+	e := &Exec{P: p, Opt: opt, strs: map[string]*Term{}, floats: map[string]*Term{}, declared: map[string]bool{}, anchorN: map[string]int{}, seenName: map[string]int{}, ghostFuncs: map[string]func(en *evalEnv, args []ev) ev{}, usedLoopKeys: map[string]bool{}}
 	return e
 }
 
